@@ -66,7 +66,7 @@ class C01(RailsProp):
     rule = ("one run = one generated configuration (Colang 1.0 modes rails-only/dialog/single-call/passthrough/embeddings-only/multi-step, or Colang 2.x guardrails library; 0-3 input and output rails, "
             "generated or shipped self-check rails, refusal or rail-exception) and one 1-5 turn conversation with a seeded allow/block/rewrite verdict per (rail, turn). "
             "non-trivial = turns in which an input rail blocked or rewrote, or a turn > 0; distinct = distinct (config class, rail kinds, verdict vector, turn position)")
-    expected_probes = ["input_block", "input_rewrite", "later_turn_checked", "user_text_begins_with_variable_syntax", "same_text_as_previous_turn"]
+    expected_probes = ["input_block", "input_rewrite", "later_turn_checked", "user_text_begins_with_variable_syntax", "same_text_as_previous_turn", "empty_user_message"]
     quick_runs = 420
     thorough_runs = 30000
 
@@ -86,6 +86,12 @@ class C01(RailsProp):
                 # the user says exactly the same thing again: a new message, gated like any other
                 turns[t] = dict(turns[t - 1])
         for t, turn in enumerate(sc["convs"][0]["turns"]):
+            if sc["colang"] == "1.0" and sc["in_rails"] and not any(r["kind"] == "shipped" for r in sc["in_rails"]) and d.chance(0.08, "empty-text", t):
+                # (not with the shipped self-check rail: it answers an empty message without asking its LLM, which is the call the
+                # harness recognises that rail by)
+                # an EMPTY user message is a user message: all input rails see it (default-deny and audit rails depend on that)
+                turn["text"] = ""
+                continue
             if d.chance(0.12, "dollar-text", t):
                 # a user message that begins with variable syntax (a price): it is text like any other
                 turn["text"] = "$20 " + turn["text"]
@@ -111,6 +117,8 @@ class C01(RailsProp):
                 continue
             if input_off_before:
                 out.probe("checked_after_options-input-off")
+            if sc["convs"][rec.conv]["turns"][rec.t]["text"] == "":
+                out.probe("empty_user_message")
             if rec.t > 0 and sc["convs"][rec.conv]["turns"][rec.t]["text"] == sc["convs"][rec.conv]["turns"][rec.t - 1]["text"]:
                 out.probe("same_text_as_previous_turn")
             RR.check_c01(sc, rec, out, cc + (":after-options-input-off" if input_off_before else ""), generation_clauses=True,
